@@ -200,3 +200,31 @@ Example C04_inplace_at_nonvacuous :
   = Some (IExpr (TBin 10%N k2 (TConst (LInt 1)))).
 Proof. cbv zeta. repeat split; vm_compute; reflexivity. Qed.
 Print Assumptions C04_inplace_at_nonvacuous.
+
+(* ---- attribute access on values and on expression results ------------------------------------
+   x.name is a deferred expression for EVERY reference or expression x and every
+   attribute name that is not a protocol name __x__ (the table obligation
+   requires special_methods, the names __getattr__ refuses, to be of that form):
+   dtype, shape, real, T, a method name ... ; its value is Python's getattr on
+   the value of x (item access on an ObjectAttrRef container) by C04_homomorphism,
+   where getattr is one of the Python-semantics parameters. *)
+Theorem C04_attribute_total :
+  forall (T : tables), tables_ok T = true ->
+  forall (o : pexp) (o' : term) (n : pystr),
+    build T o = Some o' -> wf T o' = true -> is_ref o' = true -> is_dunder n = false ->
+    build T (PAttr o n) =
+    Some (match o' with TTop _ true => TItem o' (TConst (LStr n)) | _ => TAttr o' (TConst (LStr n)) end).
+Proof. exact attr_total. Qed.
+Print Assumptions C04_attribute_total.
+
+(* non-vacuity: (c['a'] * c['b']).dtype and c['f'](dtype=c['a'].dtype) build; c['a'].__array__ does not *)
+Example C04_attribute_nonvacuous :
+  let c := PTop [99%N] false in
+  let it k := PItem c (PVal (LStr [k])) in
+  let dtype := [100%N; 116%N; 121%N; 112%N; 101%N] in
+  is_dunder dtype = false /\
+  (exists t, build gen_tables (PAttr (PBin OMul (it 97%N) (it 98%N)) dtype) = Some t) /\
+  (exists t, build gen_tables (PCall (it 102%N) [] [(dtype, PAttr (it 97%N) dtype)]) = Some t) /\
+  build gen_tables (PAttr (it 97%N) [95%N; 95%N; 97%N; 114%N; 114%N; 97%N; 121%N; 95%N; 95%N]) = None.
+Proof. cbv zeta. split; [reflexivity|]. split; [eexists; vm_compute; reflexivity|]. split; [eexists; vm_compute; reflexivity|]. vm_compute. reflexivity. Qed.
+Print Assumptions C04_attribute_nonvacuous.
